@@ -42,7 +42,7 @@ from simkit.world import digest
 ID = "C05"
 LEVEL = "exploration"
 ENGINE = "simkit/proxy-world"
-QUICK_RUNS = 3000
+QUICK_RUNS = 6000
 QUICK_BUDGET_S = 150
 THOROUGH_BUDGET_S = 900
 CHUNK = 25
@@ -363,6 +363,11 @@ def run(sc, keep_log=False):
     # peers take explicit byte strings
     pstreams = {}
     for s in cspec["streams"]:
+        if sc["origin"].get("kind") == "h1" and s["chunks"]:
+            # ASSUMPTIONS: towards HTTP/1 origins a body always comes with its content-length (also after shrinking);
+            # translating unframed HTTP/2 bodies is C06's subject
+            s["headers"] = [h for h in s["headers"] if h[0].lower() != "content-length"] + \
+                           [["content-length", str(len(body_of(s["chunks"])))]]
         pstreams[s["k"]] = {"headers": s["headers"], "chunks": [chunk_bytes(c).decode("latin-1") for c in s["chunks"]],
                             "trailers": s["trailers"]}
     for st in cspec["steps"]:
@@ -751,7 +756,13 @@ def oracle(sc, obs):
                   and not any(getattr(o_, "proto_error", None) for o_ in obs.origins))
         if normal:
             if not ob["ended"]:
-                add("client_response_wrong", {"what": "reset_instead_of_response", "origin": okind},
+                # context that tells the known early-response / server-close race (F5 of C01/C03: streamed request whose
+                # request hook is still pending when the complete answer and the origin's close arrive) from anything else
+                pol = sc.get("policy", [])
+                pending = any(p["hook"] == "requestheaders" and p.get("stream") and p["s"] == k for p in pol) and \
+                    any(p["hook"] == "request" and p.get("latency", 0) > 0 and p["s"] == k for p in pol)
+                add("client_response_wrong", {"what": "reset_instead_of_response", "origin": okind,
+                                              "streamed_request_hook_pending_at_answer": bool(pending and okind == "h1")},
                     f"stream {k}: the origin answered normally but the client stream was reset (code {ob['reset']})")
                 continue
             exp_status = str(rsp.get("status", 200)).encode()
